@@ -304,6 +304,53 @@ _S = ["therm.getInterdiffusivity: fresh symbolic diffusivity (scalar or matrix) 
       "CompositionProfile.buildProfile: identity (initial profile symbolic)"]
 B1 = [((None, None),), ((FLUX, FLUX),), ((COMP, FLUX),), ((FLUX, COMP),), ((COMP, COMP),)]
 B2 = [((None, None), (COMP, None)), ((FLUX, COMP), (COMP, FLUX)), ((COMP, COMP), (FLUX, FLUX))]
+def bc_switch(ctx, N=3, first="comp"):
+    """boundary conditions changed between two solve calls (no reset): a side switched from a fixed composition to a flux condition (or back)
+    is treated as what the user set LAST: the user's flux passes the left face and the mesh sum changes by (J_left - J_right) dt/dz again"""
+    els = ELS[:2]
+    m = SinglePhaseModel([0.0, 1.0], N, els, ["P"], record=False)
+    dz = m.dz
+    m.setTemperature(ctx.real("T", (800.0, 1200.0)))
+    m.hashTable.enableCaching(False)
+    xl = ctx.real("x_left", (0.1, 0.3)); xr = ctx.real("x_right", (0.1, 0.3))
+    ctx.assume(xl > 0.01); ctx.assume(xr > 0.01); ctx.assume(xl < 0.9); ctx.assume(xr < 0.9)
+    m.setCompositionLinear(xl, xr)
+    cval = ctx.real("fixed_composition", (0.1, 0.3)); ctx.assume(cval > 0.01); ctx.assume(cval < 0.9)
+    jval = ctx.real("left_flux", (-0.5, 0.5))
+    if first == "comp":
+        m.setBC(COMP, cval, FLUX, 0.0)
+    else:
+        m.setBC(FLUX, jval, FLUX, 0.0)
+    Ds = []
+
+    class St:
+        def getInterdiffusivity(s, xx, T, phase=None):
+            v = ctx.uf("Dnode", xx[0] if np.ndim(xx) else xx, T, rng=(0.1, 2.0))      # one (uninterpreted) diffusivity per composition and temperature
+            ctx.assume(v > 0); Ds.append(v)
+            return v
+
+        def clearCache(s): pass
+    m.therm = St()
+    m.setup()                                   # what the first solve() does
+    d1 = m.getdXdt(0.0, [m.x])[0]
+    if first == "comp":
+        ctx.prove("first call: fixed-composition node does not change", ctx.eq(d1[0, 0], 0.0))
+        m.setBC(FLUX, jval, FLUX, 0.0)          # the user opens the side for a flux before the next solve call
+    else:
+        ctx.prove("first call: the user's flux passes the left face", ctx.eq(m._getFluxes(0.0, [m.x])[0, 0], jval))
+        m.setBC(COMP, cval, FLUX, 0.0)
+    m.setup()                                   # second solve(): not the first-time branch
+    d2 = m.getdXdt(0.0, [m.x])[0]
+    J = m._getFluxes(0.0, [m.x])
+    ctx.prove("second call: mesh sum of dXdt * dz = left boundary flux - right boundary flux", ctx.eq(dz * sum(d2[0, i] for i in range(N)), J[0, 0] - J[0, N]))
+    for i in range(N):
+        ctx.prove("second call: dXdt is the face-flux difference", ctx.eq(d2[0, i] * dz, J[0, i] - J[0, i + 1]))
+    if first == "comp":
+        ctx.prove("second call: the flux condition set last is honoured on the left face", ctx.eq(J[0, 0], jval))
+    else:
+        ctx.prove("second call: the side switched to a fixed composition is held", ctx.eq(d2[0, 0], 0.0))
+
+
 def homog_dt(ctx, nel=1, N=3, uniform=False):
     """real HomogenizationModel.getDt on an arbitrary rate field (also the all-zero one of a uniform profile): no internal error, a positive
     step, and no node changes by more than maxCompositionChange within it"""
@@ -328,6 +375,9 @@ def homog_dt(ctx, nel=1, N=3, uniform=False):
 
 
 HARNESSES = [
+    Harness("C04.bc_switch", bc_switch, functions=[DiffusionModel.setup, DiffusionModel.getdXdt, DiffusionModel.setBC, SinglePhaseModel._getFluxes],
+            assumptions=["binary single-phase model, linear initial profile, compositions in (0.01, 0.9); backend stubbed (positive diffusivity per node and call)"],
+            bounds={"nodes": "N", "solve calls": 2}, params={"quick": [{"N": 3, "first": "comp"}, {"N": 3, "first": "flux"}], "thorough": [{"N": 4, "first": "comp"}, {"N": 4, "first": "flux"}]}),
     Harness("C04.homog_dt", homog_dt, functions=[HomogenizationModel.getDt], assumptions=["maxCompositionChange > 0; rate field arbitrary, including exactly zero entries and the all-zero field"],
             bounds={"nodes": "N"}, params={"quick": [{"nel": 1, "N": 2}, {"nel": 1, "N": 3, "uniform": True}], "thorough": [{"nel": 1, "N": 3}, {"nel": 2, "N": 2}, {"nel": 2, "N": 3, "uniform": True}]}),
     Harness("C04.single", single, functions=_F, assumptions=_A, stubs=_S, bounds={"solutes": "nel", "nodes": "N"},
